@@ -207,6 +207,33 @@ pub use threading::{ThreadPool, thread_pool};
 pub use timing::TimingSort;
 pub use value::{DataType, Sequence, TryFromValueError, Value, ValueOrView, ValueType, ValueView};
 
+/// Verification hooks (used by the checkers in /verif). Not part of the API.
+///
+/// Re-exports crate-internal types so that an external harness can build
+/// graphs from custom operators, plan and run them, and call the optimizer
+/// and shape inference directly.
+#[cfg(rten_verif)]
+pub mod verif {
+    pub mod graph {
+        pub use crate::graph::*;
+    }
+    pub mod operator {
+        pub use crate::operator::*;
+    }
+    pub mod optimize {
+        pub use crate::optimize::*;
+    }
+    pub mod infer_shapes {
+        pub use crate::infer_shapes::*;
+    }
+    pub mod weight_cache {
+        pub use crate::weight_cache::*;
+    }
+    pub mod constant_storage {
+        pub use crate::constant_storage::*;
+    }
+}
+
 #[deprecated = "renamed to `LoadError`"]
 pub type ModelLoadError = LoadError;
 
